@@ -312,11 +312,29 @@ pub fn gen_c08(prop: &str, tier: Tier, rng: &mut Rng, seed: u64, run: u64) -> Pl
     let ranges = term_ranges(&specs);
     let mut st = Stamps::new(rng, true, false);
     let scale = *rng.pick(&[1.0f32, 1.0, 0.125, 64.0]);
-    let dens = *rng.pick(&[0.0, 0.3, 0.6]);
+    // in an eighth of the runs some device terminals get their states by FOLLOWING a getter (pulled by
+    // the owning device's update) instead of by set
+    let follow_mode = rng.chance(0.125);
+    let dens = if follow_mode { *rng.pick(&[0.0, 0.0, 0.3]) } else { *rng.pick(&[0.0, 0.3, 0.6]) };
     random_links(&mut plan, rng, nt, dens);
     let rounds = rng.range(1, if tier == Tier::Quick { 5 } else { 8 });
     let presence = *rng.pick(&[0.2, 0.5, 0.8, 1.0]);
     for _ in 0..rounds {
+        if follow_mode {
+            for d in 0..ndev {
+                let (lo, hi) = ranges[d];
+                for k in lo..hi {
+                    if rng.chance(0.3) {
+                        if rng.chance(0.85) {
+                            let t = st.next(rng);
+                            plan.push("TF", &[k as i64, t, fb(rng.moderate_f32() * scale), fb(rng.moderate_f32() * scale), fb(rng.moderate_f32() * scale)]);
+                        } else {
+                            plan.push("TFN", &[k as i64]);
+                        }
+                    }
+                }
+            }
+        }
         for k in 0..nt {
             if rng.chance(presence * 0.6) {
                 let t = st.next(rng);
